@@ -18,393 +18,9 @@
      ok res nrem time  created(proc elem task msg)  once(proc elem task msg)  notonce alive  nlog log*
    No proofs in this file. *)
 From Coq Require Import List NArith Arith Bool.
-From DesVerif Require Import Common.Codec CQueue.Model CQueue.Spec Own.Heap Own.Shape Own.Check.
+From DesVerif Require Import Common.Codec CQueue.Model CQueue.Spec Own.Heap Own.Shape Own.Check Own.World.
 Import ListNotations.
 Open Scope N_scope.
-
-Definition B_NS : N := 1000000000.     (* transmission time of every message (bitrate = its length in bits per second) *)
-Definition L_NS : N := 100000000.      (* channel latency *)
-
-Record mcfg := { c_parent : N; c_npe : N; c_nsend : N; c_selfd : list N; c_tasks : list N;
-                 c_trig : N; c_trign : N; c_trigd : N; c_ngates : N; c_endsend : bool }.
-
-Record modrec := {
-  m_cfg : mcfg; m_ctx : nat; m_proc : nat; m_queue : nat; m_depth : nat;
-  m_rt : option nat;                       (* the module's tokio runtime, once built *)
-  m_gates : list nat;
-  m_active : bool;
-  m_handled : N;
-  m_nw : option N;                         (* Driver.next_wakeup; None = SimTime::MAX *)
-  m_slots : list (N * nat * list nat);     (* TimerQueue.pending: (time, slot, sleeping tasks), by time *)
-  m_tasks : list (nat * N * N);            (* live tasks: object, capture id, sleep duration *)
-  m_new : list nat;                        (* spawned, not polled yet *)
-  m_woken : list nat;                      (* waker fired, not polled yet *)
-  m_shut : option (option N) }.            (* ModuleContext.shutdown_task *)
-
-Record chanrec := { ch_id : nat; ch_busy : bool; ch_q : list (nat * nat * N) }.   (* queue: msg, gate, endpoint_id *)
-
-Record world := {
-  w_pin : bool;
-  w_st : st; w_fes : sp; w_buf : list (nat * N); w_clock : N; w_itr : N;
-  w_mods : list modrec; w_order : list nat;
-  w_chans : list chanrec; w_gown : list (nat * nat); w_eaux : list (nat * N);
-  w_tree : nat; w_glob : nat; w_held : list nat;
-  w_nmsg : N; w_ntask : N; w_log : list N; w_err : bool }.
-
-(* ---- setters ---- *)
-Definition wset_st (w : world) (s : st) : world :=
-  {| w_pin := w_pin w; w_st := s; w_fes := w_fes w; w_buf := w_buf w; w_clock := w_clock w; w_itr := w_itr w;
-     w_mods := w_mods w; w_order := w_order w; w_chans := w_chans w; w_gown := w_gown w; w_eaux := w_eaux w;
-     w_tree := w_tree w; w_glob := w_glob w; w_held := w_held w; w_nmsg := w_nmsg w; w_ntask := w_ntask w;
-     w_log := w_log w; w_err := w_err w |}.
-Definition wset_q (w : world) (q : sp) (buf : list (nat * N)) (clock itr : N) : world :=
-  {| w_pin := w_pin w; w_st := w_st w; w_fes := q; w_buf := buf; w_clock := clock; w_itr := itr;
-     w_mods := w_mods w; w_order := w_order w; w_chans := w_chans w; w_gown := w_gown w; w_eaux := w_eaux w;
-     w_tree := w_tree w; w_glob := w_glob w; w_held := w_held w; w_nmsg := w_nmsg w; w_ntask := w_ntask w;
-     w_log := w_log w; w_err := w_err w |}.
-Definition wset_mods (w : world) (ms : list modrec) : world :=
-  {| w_pin := w_pin w; w_st := w_st w; w_fes := w_fes w; w_buf := w_buf w; w_clock := w_clock w; w_itr := w_itr w;
-     w_mods := ms; w_order := w_order w; w_chans := w_chans w; w_gown := w_gown w; w_eaux := w_eaux w;
-     w_tree := w_tree w; w_glob := w_glob w; w_held := w_held w; w_nmsg := w_nmsg w; w_ntask := w_ntask w;
-     w_log := w_log w; w_err := w_err w |}.
-Definition wset_misc (w : world) (order : list nat) (chans : list chanrec) (gown : list (nat * nat)) (eaux : list (nat * N))
-  (held : list nat) : world :=
-  {| w_pin := w_pin w; w_st := w_st w; w_fes := w_fes w; w_buf := w_buf w; w_clock := w_clock w; w_itr := w_itr w;
-     w_mods := w_mods w; w_order := order; w_chans := chans; w_gown := gown; w_eaux := eaux;
-     w_tree := w_tree w; w_glob := w_glob w; w_held := held; w_nmsg := w_nmsg w; w_ntask := w_ntask w;
-     w_log := w_log w; w_err := w_err w |}.
-Definition wset_cnt (w : world) (nmsg ntask : N) (lg : list N) (err : bool) : world :=
-  {| w_pin := w_pin w; w_st := w_st w; w_fes := w_fes w; w_buf := w_buf w; w_clock := w_clock w; w_itr := w_itr w;
-     w_mods := w_mods w; w_order := w_order w; w_chans := w_chans w; w_gown := w_gown w; w_eaux := w_eaux w;
-     w_tree := w_tree w; w_glob := w_glob w; w_held := w_held w; w_nmsg := nmsg; w_ntask := ntask;
-     w_log := lg; w_err := err |}.
-
-Definition wlog (w : world) (m : nat) (kind pay : N) : world :=
-  wset_cnt w (w_nmsg w) (w_ntask w) (w_log w ++ [w_clock w; N.of_nat m; kind; pay]) (w_err w).
-Definition wset_buf (w : world) (b : list (nat * N)) : world := wset_q w (w_fes w) b (w_clock w) (w_itr w).
-Definition wset_fes (w : world) (q : sp) : world := wset_q w q (w_buf w) (w_clock w) (w_itr w).
-Definition wset_chans (w : world) (c : list chanrec) : world := wset_misc w (w_order w) c (w_gown w) (w_eaux w) (w_held w).
-Definition wset_eaux (w : world) (a : list (nat * N)) : world := wset_misc w (w_order w) (w_chans w) (w_gown w) a (w_held w).
-
-Definition mset (r : modrec) (rt : option nat) (active : bool) (handled : N) (nw : option N)
-  (slots : list (N * nat * list nat)) (tasks : list (nat * N * N)) (nw_tasks woken : list nat) (shut : option (option N)) : modrec :=
-  {| m_cfg := m_cfg r; m_ctx := m_ctx r; m_proc := m_proc r; m_queue := m_queue r; m_depth := m_depth r;
-     m_rt := rt; m_gates := m_gates r; m_active := active; m_handled := handled; m_nw := nw;
-     m_slots := slots; m_tasks := tasks; m_new := nw_tasks; m_woken := woken; m_shut := shut |}.
-Definition mset_gates (r : modrec) (g : list nat) : modrec :=
-  {| m_cfg := m_cfg r; m_ctx := m_ctx r; m_proc := m_proc r; m_queue := m_queue r; m_depth := m_depth r;
-     m_rt := m_rt r; m_gates := g; m_active := m_active r; m_handled := m_handled r; m_nw := m_nw r;
-     m_slots := m_slots r; m_tasks := m_tasks r; m_new := m_new r; m_woken := m_woken r; m_shut := m_shut r |}.
-Definition mset_rt r x := mset r x (m_active r) (m_handled r) (m_nw r) (m_slots r) (m_tasks r) (m_new r) (m_woken r) (m_shut r).
-Definition mset_active r x := mset r (m_rt r) x (m_handled r) (m_nw r) (m_slots r) (m_tasks r) (m_new r) (m_woken r) (m_shut r).
-Definition mset_handled r x := mset r (m_rt r) (m_active r) x (m_nw r) (m_slots r) (m_tasks r) (m_new r) (m_woken r) (m_shut r).
-Definition mset_nw r x := mset r (m_rt r) (m_active r) (m_handled r) x (m_slots r) (m_tasks r) (m_new r) (m_woken r) (m_shut r).
-Definition mset_slots r x := mset r (m_rt r) (m_active r) (m_handled r) (m_nw r) x (m_tasks r) (m_new r) (m_woken r) (m_shut r).
-Definition mset_tasks r t n k := mset r (m_rt r) (m_active r) (m_handled r) (m_nw r) (m_slots r) t n k (m_shut r).
-Definition mset_shut r x := mset r (m_rt r) (m_active r) (m_handled r) (m_nw r) (m_slots r) (m_tasks r) (m_new r) (m_woken r) x.
-
-Definition dummy_cfg : mcfg := {| c_parent := 0; c_npe := 0; c_nsend := 0; c_selfd := []; c_tasks := []; c_trig := 0;
-                                  c_trign := 0; c_trigd := 0; c_ngates := 0; c_endsend := false |}.
-Definition dummy_mod : modrec :=
-  {| m_cfg := dummy_cfg; m_ctx := 0; m_proc := 0; m_queue := 0; m_depth := 0; m_rt := None; m_gates := []; m_active := false;
-     m_handled := 0; m_nw := None; m_slots := []; m_tasks := []; m_new := []; m_woken := []; m_shut := None |}.
-Definition getm (w : world) (i : nat) : modrec := nth i (w_mods w) dummy_mod.
-Definition updm (w : world) (i : nat) (f : modrec -> modrec) : world :=
-  match nth_error (w_mods w) i with
-  | Some r => wset_mods w (upd (w_mods w) i (f r))
-  | None => w
-  end.
-
-(* lift a heap operation *)
-Definition wst (w : world) (f : st -> st) : world := wset_st w (f (w_st w)).
-Definition wrel (w : world) (o : nat) : world := wst w (fun s => release s o).
-
-(* ---- the event sink: the runtime's event set, or the static buffer BUF_CTX.events ---- *)
-Definition fes_add (w : world) (e : nat) (t : N) : world :=
-  wset_fes w (fst (fst (sp_add (w_fes w) t (N.of_nat e)))).
-Definition sink_add (direct : bool) (w : world) (e : nat) (t : N) : world :=
-  if direct then fes_add w e t else wset_buf w (w_buf w ++ [(e, t)]).
-
-Definition owner_of (w : world) (g : nat) : nat :=
-  match find (fun p => Nat.eqb (fst p) g) (w_gown w) with Some p => snd p | None => 0%nat end.
-
-Definition chan_get (w : world) (c : nat) : chanrec :=
-  match find (fun r => Nat.eqb (ch_id r) c) (w_chans w) with
-  | Some r => r | None => {| ch_id := c; ch_busy := false; ch_q := [] |} end.
-Definition chan_set (w : world) (r : chanrec) : world :=
-  wset_chans w (map (fun x => if Nat.eqb (ch_id x) (ch_id r) then r else x) (w_chans w)).
-
-(* Channel::send_message (channel.rs:199-253) *)
-Definition chan_send (direct : bool) (w : world) (c msg g : nat) (eid : N) : world :=
-  let r := chan_get w c in
-  if ch_busy r then
-    (* ChannelDropBehaviour::Queue(None): buffer.enqueue(msg, via) *)
-    let w1 := wst w (fun s => enqueue (w_pin w) s c msg g) in
-    chan_set w1 {| ch_id := c; ch_busy := true; ch_q := ch_q r ++ [(msg, g, eid)] |}
-  else
-    let w1 := chan_set w {| ch_id := c; ch_busy := true; ch_q := ch_q r |} in
-    let '(s1, eu) := ev_unbusy (w_st w1) c in
-    let w2 := sink_add direct (wset_st w1 s1) eu (w_clock w + B_NS) in
-    let '(s2, ex) := ev_exit (w_st w2) g (Some c) msg in
-    let w3 := wset_eaux (wset_st w2 s2) ((ex, eid) :: w_eaux w2) in
-    sink_add direct w3 ex (w_clock w + B_NS + L_NS).
-
-(* MessageExitingConnection::handle_with_sink (events.rs:62-129): the message is at gate [g],
-   which it entered through slot [eid] *)
-Fixpoint walk (fuel : nat) (direct : bool) (w : world) (msg g : nat) (eid : N) : world :=
-  match fuel with
-  | O => wrel w msg
-  | S f =>
-      let idx := if eid =? 1 then 0 else 1 in
-      match conn_at (hp (w_st w)) g idx with
-      | Some (g2, eid2, ch) =>
-          let w1 := wst w (fun s => set_last_gate s msg g2) in
-          if negb (m_active (getm w1 (owner_of w1 g))) then wrel w1 msg     (* owner inactive: drop(msg) *)
-          else match ch with
-               | Some c => chan_send direct w1 c msg g2 eid2
-               | None => walk f direct w1 msg g2 eid2
-               end
-      | None =>
-          let m := getm w (owner_of w g) in
-          let '(s1, e) := ev_handle (w_st w) (m_ctx m) (m_proc m) msg in
-          sink_add direct (wset_st w s1) e (w_clock w)
-      end
-  end.
-
-Definition gate_fuel (w : world) : nat := S (length (w_gown w)).
-
-(* the first step of handle_with_sink: msg.header.last_gate = Some(self.con.endpoint.clone()) *)
-Definition exit_conn (direct : bool) (w : world) (msg g : nat) (eid : N) : world :=
-  walk (gate_fuel w) direct (wst w (fun s => set_last_gate s msg g)) msg g eid.
-
-(* ---- timers ---- *)
-Fixpoint slot_insert (t : N) (task : nat) (mk : unit -> nat) (l : list (N * nat * list nat)) : list (N * nat * list nat) * bool :=
-  match l with
-  | [] => ([(t, mk tt, [task])], true)
-  | (t0, sl, es) :: r =>
-      if t0 =? t then ((t0, sl, es ++ [task]) :: r, false)
-      else if t <? t0 then ((t, mk tt, [task]) :: l, true)
-      else let x := slot_insert t task mk r in ((t0, sl, es) :: fst x, snd x)
-  end.
-
-(* Sleep's first poll: TimerQueue::add (driver.rs:100-130) *)
-Definition register_timer (w : world) (i : nat) (task : nat) (deadline : N) : world :=
-  let m := getm w i in
-  let next_id := length (hp (w_st w)) in            (* the slot object, if one has to be created *)
-  let x := slot_insert deadline task (fun _ => next_id) (m_slots m) in
-  let w1 := if snd x then wst w (fun s => fst (new_slot s (m_queue m))) else w in
-  let sl := match find (fun p => fst (fst p) =? deadline) (fst x) with Some p => snd (fst p) | None => 0%nat end in
-  let w2 := wst w1 (fun s => st_weak s task 0 sl) in
-  updm w2 i (fun r => mset_slots r (fst x)).
-
-Fixpoint insert_sorted (x : nat * N) (l : list (nat * N)) : list (nat * N) :=
-  match l with
-  | [] => [x]
-  | y :: r => if snd x <? snd y then x :: l else y :: insert_sorted x r
-  end.
-
-(* what Harness::exec does after the callback: `yield_now().await` lets every runnable task run.
-   New tasks reach their first await; tasks whose timer fired run to their end. *)
-Definition poll_tasks (w : world) (i : nat) : world :=
-  let m := getm w i in
-  let w1 := fold_left (fun wa t =>
-              match find (fun x => Nat.eqb (fst (fst x)) t) (m_tasks m) with
-              | Some (_, _, d) => if d =? 0 then wa else register_timer wa i t (w_clock wa + d)
-              | None => wa
-              end) (m_new m) w in
-  let fin := fold_right (fun t acc => match find (fun x => Nat.eqb (fst (fst x)) t) (m_tasks m) with
-                                      | Some (_, c, _) => insert_sorted (t, c) acc | None => acc end) [] (m_woken m) in
-  let w2 := fold_left (fun wa tc =>
-              let wb := wlog wa i 3 (snd tc) in
-              match m_rt (getm wb i) with
-              | Some r => wst wb (fun s => st_drop_edge s r (fst tc))       (* the finished future is dropped *)
-              | None => wb
-              end) fin w1 in
-  updm w2 i (fun r => mset_tasks r (filter (fun x => negb (existsb (Nat.eqb (fst (fst x))) (m_woken m))) (m_tasks r)) [] []).
-
-(* Rt::current (rt.rs:79-98): the runtime is built on first use *)
-Definition ensure_rt (w : world) (i : nat) : world :=
-  match m_rt (getm w i) with
-  | Some _ => w
-  | None => let '(s1, r) := new_runtime (w_st w) (m_ctx (getm w i)) in
-            updm (wset_st w s1) i (fun x => mset_rt x (Some r))
-  end.
-
-(* ModuleRef::activate (refs.rs:194-216) *)
-Definition activate (w : world) (i : nat) : world :=
-  let m := getm w i in
-  let w1 := wst w (fun s => st_root s (m_ctx m)) in                   (* MOD_CTX <- Arc::clone(&self.ctx) *)
-  (* Driver::bump: every slot with time <= now is unwrapped, its wakers fire, the slot is dropped *)
-  let due := filter (fun p => fst (fst p) <=? w_clock w) (m_slots m) in
-  let rest := filter (fun p => negb (fst (fst p) <=? w_clock w)) (m_slots m) in
-  let w2 := fold_left (fun wa p => wst wa (fun s => st_drop_edge s (m_queue m) (snd (fst p)))) due w1 in
-  let nw := match m_nw m with Some t => if t <=? w_clock w then None else Some t | None => None end in
-  updm w2 i (fun r => mset r (m_rt r) (m_active r) (m_handled r) nw rest (m_tasks r) (m_new r)
-                           (m_woken r ++ flat_map (fun p => snd p) due) (m_shut r)).
-
-Fixpoint drop_empty_front (l : list (N * nat * list nat)) : list nat * list (N * nat * list nat) :=
-  match l with
-  | (t, sl, []) :: r => let x := drop_empty_front r in (sl :: fst x, snd x)
-  | _ => ([], l)
-  end.
-
-(* ModuleRef::deactivate (refs.rs:221-258) with an event set as the sink *)
-Definition deactivate (w : world) (i : nat) : world :=
-  let m := getm w i in
-  let x := drop_empty_front (m_slots m) in                          (* TimerQueue::next pops emptied front slots *)
-  let w1 := fold_left (fun wa sl => wst wa (fun s => st_drop_edge s (m_queue m) sl)) (fst x) w in
-  let w2 := updm w1 i (fun r => mset_slots r (snd x)) in
-  let w3 := match snd x with
-            | (t, _, _) :: _ =>
-                if match m_nw m with Some nw => t <? nw | None => true end then
-                  let '(s1, e) := ev_module (w_st w2) 4 (m_ctx m) (m_proc m) in
-                  fes_add (updm (wset_st w2 s1) i (fun r => mset_nw r (Some t))) e t
-                else w2
-            | [] => w2
-            end in
-  wrel w3 (m_ctx m).                                                 (* let _ = ModuleContext::take() *)
-
-(* ---- the scripted module ---- *)
-Definition fresh_msg (w : world) : world * nat :=
-  let '(s1, m) := new_msg (w_st w) (w_nmsg w) in
-  (wset_cnt (wset_st w s1) (w_nmsg w + 1) (w_ntask w) (w_log w) (w_err w), m).
-
-(* schedule_in(msg, d): buf_schedule_at (runtime/ctx.rs:95-108) *)
-Definition do_schedule (w : world) (i : nat) (d : N) : world :=
-  let '(w1, msg) := fresh_msg w in
-  let m := getm w1 i in
-  let '(s1, e) := ev_handle (w_st w1) (m_ctx m) (m_proc m) msg in
-  sink_add false (wset_st w1 s1) e (w_clock w1 + d).
-
-(* send(msg, "g0"): buf_send_at with send_time = now (runtime/ctx.rs:63-93) *)
-Definition do_send (w : world) (i : nat) : world :=
-  match m_gates (getm w i) with
-  | g :: _ =>
-      if 2 <=? conn_count (hp (w_st w)) g then w          (* the script never sends on a transit gate *)
-      else let '(w1, msg) := fresh_msg w in exit_conn false w1 msg g 1
-  | [] => w
-  end.
-
-Definition do_spawn (w : world) (i : nat) (d : N) : world :=
-  match m_rt (getm w i) with
-  | Some r =>
-      let '(s1, t) := new_task (w_st w) r (w_ntask w) in
-      let w1 := wset_cnt (wset_st w s1) (w_nmsg w) (w_ntask w + 1) (w_log w) (w_err w) in
-      updm w1 i (fun x => mset_tasks x (m_tasks x ++ [(t, w_ntask w, d)]) (m_new x ++ [t]) (m_woken x))
-  | None => w
-  end.
-
-Fixpoint repeat_n {A} (n : nat) (f : A -> A) (a : A) : A := match n with O => a | S k => repeat_n k f (f a) end.
-
-(* Module::at_sim_start(0), inside Harness::exec *)
-Definition at_sim_start (w : world) (i : nat) : world :=
-  let c := m_cfg (getm w i) in
-  let w0 := ensure_rt w i in
-  let w1 := wlog w0 i 1 0 in
-  let w2 := repeat_n (N.to_nat (c_nsend c)) (fun wa => do_send wa i) w1 in
-  let w3 := fold_left (fun wa d => do_schedule wa i d) (c_selfd c) w2 in
-  let w4 := fold_left (fun wa d => do_spawn wa i d) (c_tasks c) w3 in
-  poll_tasks w4 i.
-
-(* buf_process (runtime/ctx.rs:110-153) *)
-Definition buf_process (w : world) (i : nat) : world :=
-  let w1 := fold_left (fun wa et => fes_add wa (fst et) (snd et)) (w_buf w) (wset_buf w []) in
-  match m_shut (getm w1 i) with
-  | None => w1
-  | Some restart =>
-      let m := getm w1 i in
-      (* async_ext.rt.shutdown(): the runtime and every task of the module are dropped; a dropped
-         Sleep takes its entry out of its slot (TimerSlotEntryHandle::drop, driver.rs:43-52) *)
-      let w2 := match m_rt m with
-                | Some r => wst w1 (fun s => st_drop_edge s (m_ctx m) r)
-                | None => w1 end in
-      let w3 := updm w2 i (fun r => mset r None false (m_handled r) (m_nw r)
-                                     (map (fun p => (fst p, @nil nat)) (m_slots r)) [] [] [] None) in
-      (* module.activate(); module.reset(); module.deactivate(rt) *)
-      let w4 := activate w3 i in
-      let w5 := poll_tasks (wlog (ensure_rt w4 i) i 5 0) i in
-      let w6 := deactivate w5 i in
-      match restart with
-      | Some t => let m6 := getm w6 i in
-                  let '(s1, e) := ev_module (w_st w6) 3 (m_ctx m6) (m_proc m6) in
-                  fes_add (wset_st w6 s1) e t
-      | None => w6
-      end
-  end.
-
-(* ModuleRef::handle_message (events.rs:275-303) with the scripted handler *)
-Definition handle_message (w : world) (i : nat) (msg : nat) : world :=
-  let m := getm w i in
-  if negb (m_active m) then wrel w msg
-  else
-    let w0 := ensure_rt w i in
-    let pay := match tag_of (hp (w_st w0)) msg with Some (TMsg p) => p | _ => 0 end in
-    let w1 := wrel (wlog w0 i 2 pay) msg in
-    let n := m_handled m + 1 in
-    let w2 := updm w1 i (fun r => mset_handled r n) in
-    let c := m_cfg m in
-    if n =? c_trign c then
-      match N.to_nat (c_trig c mod 4) with
-      | 1%nat => poll_tasks (updm w2 i (fun r => mset_shut r (Some None))) i
-      | 2%nat => poll_tasks (updm w2 i (fun r => mset_shut r (Some (Some (w_clock w + c_trigd c))))) i
-      | 3%nat => (* panic: Harness::catch marks the module inactive; HOST stereotype: the error is kept *)
-                 let w3 := updm w2 i (fun r => mset_active r false) in
-                 wset_cnt w3 (w_nmsg w3) (w_ntask w3) (w_log w3) true
-      | _ => poll_tasks w2 i
-      end
-    else poll_tasks w2 i.
-
-Definition take_field (w : world) (e : nat) (f : N) : world * option nat :=
-  let '(s1, r) := st_move_out (w_st w) e (fun k => kf k f) in (wset_st w s1, r).
-
-Definition mod_of_ctx (w : world) (c : nat) : nat :=
-  let fix go (l : list modrec) (i : nat) : nat :=
-    match l with [] => 0%nat | r :: t => if Nat.eqb (m_ctx r) c then i else go t (S i) end in
-  go (w_mods w) 0%nat.
-
-Definition event_module (w : world) (e : nat) : nat :=
-  match find (fun x => kf (ek x) 3) (edges_of (hp (w_st w)) e) with
-  | Some x => mod_of_ctx w (et x) | None => 0%nat end.
-
-(* NetEvents::handle.  The event value is consumed: whatever it still holds is dropped at the end. *)
-Definition dispatch (w : world) (e : nat) : world :=
-  let kind := match tag_of (hp (w_st w)) e with Some (TEvent k) => k | _ => 9 end in
-  match N.to_nat kind with
-  | 0%nat => (* MessageExitingConnection: handle_with_sink(rt) *)
-      let eid := match find (fun p => Nat.eqb (fst p) e) (w_eaux w) with Some p => snd p | None => 1 end in
-      let g := match find (fun x => kf (ek x) 0) (edges_of (hp (w_st w)) e) with Some x => et x | None => 0%nat end in
-      let '(w1, msg) := take_field w e 2 in
-      let w2 := match msg with Some m => exit_conn true w1 m g eid | None => w1 end in
-      wrel w2 e
-  | 1%nat => (* HandleMessageEvent *)
-      let i := event_module w e in
-      let '(w1, msg) := take_field w e 2 in
-      let w2 := activate w1 i in
-      let w3 := match msg with Some m => handle_message w2 i m | None => w2 end in
-      wrel (buf_process (deactivate w3 i) i) e
-  | 2%nat => (* ChannelUnbusyNotif: Channel::unbusy (channel.rs:256-272) *)
-      let c := match find (fun x => kf (ek x) 1) (edges_of (hp (w_st w)) e) with Some x => et x | None => 0%nat end in
-      let r := chan_get w c in
-      let w1 := match ch_q r with
-                | (_, g, eid) :: rest =>
-                    let wa := chan_set w {| ch_id := c; ch_busy := false; ch_q := rest |} in
-                    let '(s1, m) := dequeue (w_pin w) (w_st wa) c in
-                    match m with Some m => chan_send true (wset_st wa s1) c m g eid | None => wset_st wa s1 end
-                | [] => chan_set w {| ch_id := c; ch_busy := false; ch_q := [] |}
-                end in
-      wrel w1 e
-  | 3%nat => (* ModuleRestartEvent: module_restart (events.rs:262-273) *)
-      let i := event_module w e in
-      let w1 := activate w i in
-      let w2 := at_sim_start (updm w1 i (fun r => mset_active r true)) i in
-      wrel (buf_process (deactivate w2 i) i) e
-  | 4%nat => (* AsyncWakeupEvent: async_wakeup (events.rs:250-260) *)
-      let i := event_module w e in
-      let w1 := activate w i in
-      let w2 := if m_active (getm w1 i) then poll_tasks (ensure_rt w1 i) i else w1 in
-      wrel (buf_process (deactivate w2 i) i) e
-  | _ => w
-  end.
 
 (* ---- building ---- *)
 Definition tree_pos (order : list nat) (depths : list nat) (parent : nat) (pd : nat) : nat :=
